@@ -855,7 +855,9 @@ def step_any(e, tier="quick", usage=False, types=None):
         if x.a_shape in ("fresh", "claimed0") and e.choose(2, "mailbox_id"):
             w.set_attr(c, "_mailbox_id", e.sym_str("c.mailbox_id"))
     np_id, mb_id, held = c._nameplate_id, c._mailbox_id, c._mailbox
-    alts = (types or ([None] + KNOWN_TYPES + ["?"]))
+    # "?" = a symbolic type different from all known ones; "?c" = a concrete unknown type (covers
+    # table-driven dispatch, where a symbolic key cannot be looked up in a native dict)
+    alts = (types or ([None] + KNOWN_TYPES + ["?", "?c"]))
     ty = alts[e.choose(len(alts), "type")]
     keys = ["id", "appid", "side", "nameplate", "mailbox", "phase", "body", "mood", "ping", "junk1", "junk2"]
     pres = {k: e.sym_bool("has_" + k) for k in keys}
@@ -872,6 +874,8 @@ def step_any(e, tier="quick", usage=False, types=None):
         p2, v2 = dict(pres), dict(val)
         p2["type"], v2["type"] = True, tsym
         msg = SymMsg(p2, v2)
+    elif ty == "?c":
+        msg = w.msg("no-such-command", **fields)
     else:
         msg = w.msg(ty, **fields)
     bound = x.a_shape != "unbound"
@@ -881,7 +885,13 @@ def step_any(e, tier="quick", usage=False, types=None):
         if ty == "close" and mb_id is not None and held is None:
             kf = Or(kf, kf_d6_term(x, mb_id))
     before = conn_state(c)
+    hashed_before = len(e.hashed)
     ex = w.deliver(c, msg)
+    if ty == "?" and len(e.hashed) > hashed_before and all(z3.eq(h, tsym.z) for h in e.hashed[hashed_before:]):
+        # the symbolic type was used as a key of a native dict (table-driven dispatch): this path cannot
+        # be trusted, and the concrete unknown type "?c" covers it
+        from sx.engine import Abort
+        raise Abort()
     fr = step_frames(c)
     types_ = [ftype(r) for r in fr]
     post = w.snapshot()
@@ -891,6 +901,8 @@ def step_any(e, tier="quick", usage=False, types=None):
     P = lambda k: pres[k]
     N = z3.Not
     # ---- reference table (docs/server-protocol.md) ----
+    if ty == "?c":
+        ty = "?"
     if ty is None:
         err = T
     elif ty == "ping":
